@@ -36,9 +36,9 @@ package socks5
 //@   property C12
 //@   mode int
 //@   requires s != nil && s.config != nil && req != nil
-//@   ensures dstLoopbackLike(req.DstAddr) && !userMayLoopback(s, in) ==> a.Action == 2
-//@   ensures dstPrivate(req.DstAddr) && !userMayPrivate(s, in) && !(dstLoopbackLike(req.DstAddr) && userMayLoopback(s, in)) ==> a.Action == 2
-//@   ensures !dstLoopbackLike(req.DstAddr) && !dstPrivate(req.DstAddr) ==> a.Action == 1
+//@   ensures dstLoopbackLike(req.DstAddr, req.Command) && !userMayLoopback(s, in) ==> a.Action == 2
+//@   ensures dstPrivate(req.DstAddr) && !userMayPrivate(s, in) && !(dstLoopbackLike(req.DstAddr, req.Command) && userMayLoopback(s, in)) ==> a.Action == 2
+//@   ensures !dstLoopbackLike(req.DstAddr, req.Command) && !dstPrivate(req.DstAddr) ==> a.Action == 1
 //@   ensures a.Action == 1 || a.Action == 2
 //@   loop 1:
 //@     modifies nothing
@@ -98,3 +98,19 @@ package socks5
 //@ func parseEgressSocks5Request(data []byte) (req *model.Request, err error)
 //@   trusted parsing through bytes.Buffer/io.TeeReader is outside the subset; the request is left unconstrained
 //@   ensures err == nil ==> req != nil && fresh(req)
+
+//@ // UDP relay (C12, last clause of the property): the destination of every relayed datagram
+//@ // comes from the datagram's own header, so the decision function is consulted per datagram
+//@ // (D2b repaired): both association handlers build the connection's destination filter,
+//@ // the filter asks rejectPrivateAndLoopbackIPAction, and the unfiltered entry point is only
+//@ // the exported wrapper.
+//@ struct mustcall Server.udpDestinationFilter : Server.rejectPrivateAndLoopbackIPAction
+//@   property C12
+//@ struct mustcall Server.handleAssociatePacketOverStream : Server.udpDestinationFilter
+//@   property C12
+//@ struct mustcall Server.handleAssociateDatagram : Server.udpDestinationFilter
+//@   property C12
+//@ struct callers runUDPAssociateLoop = {RunUDPAssociateLoop, Server.handleAssociatePacketOverStream}
+//@   property C12
+//@ struct callers runUDPAssociateDatagramLoop = {Server.handleAssociateDatagram}
+//@   property C12
